@@ -227,6 +227,8 @@ type wsSess struct {
 	srvs []*wsServer
 	al   *sim.ActorListener
 	mem  *memStream
+	// expectBytes bounds how long a reader may legitimately need (one byte per round at worst)
+	expectBytes int
 }
 
 func newWsSess(c *Ctx) *wsSess {
@@ -289,6 +291,7 @@ func (s *wsSess) wire() []byte {
 
 // feed delivers server->client bytes with pauses at cuts.
 func (s *wsSess) feed(b []byte, cuts []int) {
+	s.expectBytes += len(b)
 	if s.mem != nil {
 		prev := 0
 		for _, c := range cuts {
@@ -324,6 +327,38 @@ func (s *wsSess) pump() {
 	if _, err := s.ioc.PollOne(); err != nil && err != sonicerrors.ErrTimeout {
 		s.c.Failf("poll-error", "PollOne: %v", err)
 	}
+}
+
+// waitFor pumps until *done; gives up when nothing moved for many rounds.
+func (s *wsSess) waitFor(done *bool) bool {
+	idle := 0
+	rounds := 0
+	limit := 3000 + 3*s.expectBytes
+	for !*done {
+		rounds++
+		if rounds > limit {
+			return false // progress without end: a livelock
+		}
+		before := s.w.KernelCalls + s.w.Steps
+		mr := 0
+		if s.mem != nil {
+			mr = s.mem.Reads + s.mem.Writes
+		}
+		s.pump()
+		moved := s.w.KernelCalls+s.w.Steps-before > 2
+		if s.mem != nil && s.mem.Reads+s.mem.Writes != mr {
+			moved = true
+		}
+		if moved {
+			idle = 0
+		} else {
+			idle++
+			if idle > 400 {
+				return false
+			}
+		}
+	}
+	return true
 }
 
 // epfd: the IO's epoll instance is the first descriptor the world handed out.
